@@ -28,7 +28,7 @@ APOS = ["uniform", "rcos", "gaussian", "parabolic", "callable", "callable", "cal
 
 # user profile functions that happen to carry the names of the built-in profiles (their shapes are different ones)
 def gaussian(z):
-    return 0.4 + 0.6 * np.exp(-0.5 * (z / 0.1) ** 2)
+    return 0.4 + 0.6 * np.exp(-0.5 * (z / 0.22) ** 2)      # (a 0.1-wide bump is integrated by the library's default-accuracy RK45 to ~4e-3 only)
 
 
 def parabolic(z):
